@@ -24,7 +24,7 @@ var replayFamilies = map[string][]string{
 	"C01": {"lifecycle"}, "C02": {"lifecycle", "batch"}, "C03": {"flow"}, "C04": {"lifecycle", "flow", "batch"},
 	"C05": {"lifecycle", "flow"}, "C06": {"batch"}, "C07": {"batch"}, "C08": {"pool", "batch"}, "C09": {"batch"},
 	"C10": {"flow"}, "C11": {"batch"}, "C12": {"pool"}, "C13": {"storeconc"}, "C14": {"store"}, "C15": {"value"},
-	"C16": {"bind"}, "C17": {"lifecycle", "batch"}, "C18": {"lifecycle", "batch"}, "C19": {"config"}, "C20": {"lifecycle", "batch"},
+	"C16": {"bind"}, "C17": {"lifecycle", "batch"}, "C18": {"lifecycle", "batch", "flow"}, "C19": {"config"}, "C20": {"lifecycle", "batch"},
 }
 
 type replayOutcome struct {
